@@ -6,8 +6,6 @@ root = os.path.dirname(os.path.dirname(os.path.abspath(__file__)))
 props = [json.loads(l) for l in open(os.path.join(root, 'properties.jsonl'))]
 claims = json.load(open(os.path.join(root, 'tools', 'claims.json')))
 NA = {
- "C05": "Reassembled payload equality is a property of runtime values flowing through gopacket/reassembly for all segmentations and file cuts; no structural necessary condition distinguishes a right reassembly from a wrong one (DESIGN.md §4 C05).",
- "C08": "Equivalence of incremental and one-shot import depends on snapshot choice and replay windows computed from packet timestamps; nothing about it is visible in the shape of FromPcap (DESIGN.md §4 C08).",
 }
 checks, na = [], []
 for p in props:
